@@ -532,13 +532,70 @@ Proof.
 Qed.
 
 (* ================= several scripts on one VM (contract calls) ================= *)
-Lemma sys_load_ok scripts : Forall nonneg_bytes scripts -> sys_ok (sys_load scripts).
+(* arguments moved from the caller's stack to the callee's (the contract call) *)
+Lemma pop_n_dI : forall n E U d its d', dI E [] U d -> pop_n n d = Some (its, d') ->
+  exists U', dI E [] U' d' /\ shp d d' /\ Forall (valid (d_heap d')) its.
 Proof.
-  intros F Lk op p s s' K. unfold sys_load. destruct op; try discriminate.
-  case_if; [discriminate|]. destruct (nth_error scripts (Z.to_nat (from_le p - 1))) as [prog|] eqn:E; [|discriminate].
-  assert (NP : nonneg_bytes prog) by (rewrite Forall_forall in F; apply F; eapply nth_error_In; eauto).
-  case_if; [discriminate|]. case_if; intros Q; inv Q; apply load_script_sI; assumption.
+  induction n as [|n IH]; intros E U d its d' H; simpl.
+  - intros Q; inv Q. exists U. split; [exact H|]. split; [unfold shp; apply same_shape_refl|constructor].
+  - destruct (pop d) as [[it d1]|] eqn:P; [|discriminate].
+    destruct (pop_n n d1) as [[its1 d2]|] eqn:Pn; [|discriminate]. intros Q; inv Q.
+    pose proof (dI_pop _ _ _ _ _ H P) as H1.
+    destruct (IH _ _ _ _ _ H1 Pn) as (U' & H2 & S2 & V2). exists U'. split; [exact H2|]. split.
+    + unfold shp in *. eapply same_shape_trans; [apply (shp_pop _ _ _ P)|exact S2].
+    + constructor; [|exact V2]. eapply valid_shape; [exact S2|]. destruct H1 as [_ Hu _]. inv Hu. assumption.
 Qed.
+Lemma push_all_sI Lk : forall its s, sIk Lk s -> Forall (valid (s_heap s)) its -> sIk Lk (unview s (push_all its (view s))).
+Proof.
+  intros its s K V.
+  assert (G : exists U, dI (fr_roots (s_frames s) ++ oroots s ++ Lk) [] U (push_all its (view s)) /\ shp (view s) (push_all its (view s))).
+  { destruct K as [_ _ _ (U & H)]. induction its as [|it t IH]; simpl.
+    - exists U. split; [exact H|unfold shp; apply same_shape_refl].
+    - inv V. destruct (IH H3) as (U1 & H1 & S1). exists U1. split.
+      + apply dI_push_v; [exact H1|]. eapply valid_shape; [exact S1|assumption].
+      + unfold shp in *. eapply same_shape_trans; [exact S1|apply (shp_push it)]. }
+  destruct G as (U & H & S). eapply (sI_unview s _ Lk Lk); [exact K|exact S|exists U; exact H].
+Qed.
+
+Lemma load_checked_sI Lk s prog sid rv s' :
+  sIk Lk s -> nonneg_bytes prog -> load_checked s prog sid rv = Some s' -> sIk Lk s'.
+Proof. unfold load_checked. case_if; [discriminate|]. intros K NP Q; inv Q. apply load_script_sI; assumption. Qed.
+
+Lemma load_mode_sI check scripts id Lk s s' :
+  Forall nonneg_bytes scripts -> sIk Lk s -> load_mode check scripts id s = Some s' -> sIk Lk s'.
+Proof.
+  intros F K. unfold load_mode.
+  assert (LD : forall s0 prog sid rv s1, sIk Lk s0 -> nonneg_bytes prog ->
+                 (if check then load_checked s0 prog sid rv else Some (load_script s0 prog sid rv)) = Some s1 -> sIk Lk s1).
+  { intros s0 prog sid rv s1 K0 NP. destruct check; [apply load_checked_sI; assumption|]. intros Q; inv Q. apply load_script_sI; assumption. }
+  case_if; [intros E; eapply call_sI; eauto|].
+  case_if; [discriminate|].
+  destruct (nth_error scripts (Z.to_nat (id mod 256 - 1))) as [prog|] eqn:E; [|discriminate].
+  assert (NP : nonneg_bytes prog) by (rewrite Forall_forall in F; apply F; eapply nth_error_In; eauto).
+  case_if; [case_if; apply LD; assumption|].
+  case_if; [apply LD; assumption|].
+  case_if; [apply LD; assumption|].
+  case_if.
+  - match goal with |- (match ?x with Some _ => _ | None => None end) = _ -> _ => destruct x as [s1|] eqn:L; [|discriminate] end.
+    intros C. eapply call_sI; [|exact C]. eapply LD; eauto.
+  - case_if; [|discriminate].
+    destruct (pop_n (Z.to_nat (id / 4096 mod 16)) (view s)) as [[its d]|] eqn:Pn; [|discriminate].
+    match goal with |- (match ?x with Some _ => _ | None => None end) = _ -> _ => destruct x as [s1|] eqn:L; [|discriminate] end.
+    intros Q; inv Q. pose proof K as [_ _ _ (U & H)].
+    destruct (pop_n_dI _ _ _ _ _ _ H Pn) as (U' & H' & S' & V').
+    assert (K1 : sIk Lk (unview s d)) by (eapply (sI_unview s d Lk Lk); [exact K|exact S'|exists U'; exact H']).
+    assert (K2 : sIk Lk s1) by (eapply LD; eauto).
+    apply push_all_sI; [exact K2|].
+    assert (Eh : s_heap s1 = d_heap d).
+    { destruct check; [unfold load_checked in L; revert L; case_if; [discriminate|]; intros Q|]; [inv Q|inv L]; reflexivity. }
+    rewrite Eh. exact V'.
+Qed.
+
+Lemma sys_load_ok scripts : Forall nonneg_bytes scripts -> sys_ok (sys_load scripts).
+Proof. intros F Lk op p s s' K. unfold sys_load. destruct op; try discriminate. apply load_mode_sI; assumption. Qed.
+(* (the counter invariant does not depend on the depth check: the unchecked loaders keep it as well) *)
+Lemma sys_load_unchecked_ok scripts : Forall nonneg_bytes scripts -> sys_ok (sys_load_unchecked scripts).
+Proof. intros F Lk op p s s' K. unfold sys_load_unchecked. destruct op; try discriminate. apply load_mode_sI; assumption. Qed.
 
 Theorem run_with_sI sys : sys_ok sys -> forall n s, sI s ->
   match run_with sys n s with Running s' => sI s' | Halted s' => sI s' | Faulted _ => True end.
